@@ -174,6 +174,10 @@ pub fn writer_direction(run: &Run, total: &mut SweepOut) {
             // showing it): a conforming parser normalises it, so texts that combine CR with other
             // fragments cannot be compared beyond that and are left to C02's own-reader round trip
             CaseDesc::Text { frags } => !frags.iter().any(|f| crate::codec::TEXT_FRAGMENTS[*f as usize] == "\r"),
+            // the position sweep adds nothing for the types the value sweep already sets aside
+            // (UniqueId: a listed document-vs-implementation finding; two types the document
+            // does not describe)
+            CaseDesc::Position { ty, .. } => !["UniqueId", "SecurityCapabilities", "Vector2int16"].contains(&ty.as_str()),
             _ => true,
         })
         .collect();
